@@ -6,7 +6,7 @@ import Chartparse.Tie.LoopEvents
     the previous event and the two cursors, the cursors taken over from its result — is the fold of that call over the maximal
     runs of adjacent equal-tick data, for every list of data and whatever `NoteEvent.from_parsed_data` does. -/
 namespace Chartparse.Tie
-open Chartparse Chartparse.Imp
+open Chartparse Chartparse.PyImp
 
 /-- maximal runs of adjacent data with equal keys (the hand model's `Inst.groups`, over any key) -/
 def groupsV (key : Val → Val) : List Val → List (List Val)
